@@ -615,8 +615,10 @@ class BatchProxy(object):
 
     def __call__(self, oneway=False):
         self.__proxy._pyroClaimOwnership()
-        results = self.__proxy._pyroInvokeBatch(self.__calls, oneway)
-        self.__calls = []  # clear for re-use
+        try:
+            results = self.__proxy._pyroInvokeBatch(self.__calls, oneway)
+        finally:
+            self.__calls = []  # clear for re-use, also when the submission failed (the calls may already have been executed)
         if not oneway:
             return self.__resultsgenerator(results)
 
